@@ -108,6 +108,13 @@ CANARIES = [
     ('c19-unvalidated', 'C19', 'mindsdb_sql/__init__.py', "                if self.query_is_valid(tokens2):\n                    suggestions.append(value)\n                    continue\n\n                # try to replace token",
      "                suggestions.append(value)\n                continue\n\n                # try to replace token", 'C19.validated'),
     ('c19-eof-two-carets', 'C19', 'mindsdb_sql/__init__.py', "            error_len = 1\n", "            error_len = 2\n", 'C19.caret.select.eof'),
+    ('c15-window-boundary', 'C15', 'mindsdb_sql/planner/plan_join_ts.py', "preparation_time_filter_op = {'>': '<=', '>=': '<'}[time_filter.op]", "preparation_time_filter_op = {'>': '<', '>=': '<'}[time_filter.op]", 'C15.rows.gt'),
+    ('c15-no-notnull', 'C15', 'mindsdb_sql/planner/plan_join_ts.py', "        preparation_where = add_order_not_null(preparation_where)\n", "", 'C15.rows.'),
+    ('c15-between-inclusive', 'C15', 'mindsdb_sql/planner/plan_join_ts.py', "preparation_time_filter = BinaryOperation('<', args=[Identifier(predictor_time_column_name), between_from])", "preparation_time_filter = BinaryOperation('<=', args=[Identifier(predictor_time_column_name), between_from])", 'C15.rows.between'),
+    ('c15-limit-pushed', 'C15', 'mindsdb_sql/planner/plan_join_ts.py', "                                          modifiers=query_modifiers,\n                                          order_by=order_by)\n\n            integration_selects = [integration_select_1, integration_select_2]\n        else:",
+     "                                          modifiers=query_modifiers,\n                                          order_by=order_by, limit=query.limit)\n\n            integration_selects = [integration_select_1, integration_select_2]\n        else:", 'C15.rows.g'),
+    ('c15-find-first-only', 'C15', 'mindsdb_sql/planner/ts_utils.py', "        if left and right:\n            raise PlanningException('Can provide only one filter by predictor order_by column, found two')\n", "", 'C15.find.and.leaf-leaf'),
+    ('c15-allow-orderby', 'C15', 'mindsdb_sql/planner/plan_join_ts.py', "        if query.order_by:\n            raise PlanningException(", "        if query.order_by and False:\n            raise PlanningException(", 'C15.reject.order-by'),
 ]
 
 
